@@ -107,6 +107,8 @@ def build(ctx, evo):
         relaxed = sorted({op["t"] for op in st["ops"] if op["op"] == "drop_cols_rebuild_variant"})
         files.append({"name": name, "text": text, "writer": st["writer"], "cls": L.file_class(st["ops"]) if i else st["kind"],
                       "kind": st["kind"], "ops": [L.op_label(o) for o in st["ops"]], "relaxed": relaxed, "model_after": model.facts()})
+        if st.get("focus") and len(st["ops"]) > 1:
+            files[-1]["cls"] = st["kind"]
     # the model must describe what the files really do (independent engine); for hand-written files a
     # mismatch is a bug of this monitor, for atlas-written ones the diff did not converge (not C18's business)
     try:
@@ -146,13 +148,17 @@ def judge_file(f, rec, diags):
     """Compare the DS1xx diagnostics of one file with what the facts demand (rec = L.track_file record).
     Returns (problems, observed, details) where problems = [(key, what)] and observed is a digestable summary."""
     stmts, groups, before, after = rec["stmts"], rec["groups"], rec["before"], rec["after"]
-    exp_t = [t for t, _ in rec["tables"]]
+    exp_t = [e["t"] for e in rec["tables"]]
     exp_c = [(t, c) for t, c, _ in rec["columns"]]
     virt = rec["virtual"]
 
     def span(a, b):
         return [(stmts[a].region, stmts[b].end)]
-    t_span = {t: span(i, i) for t, i in rec["tables"]}
+    t_span = {e["t"]: [x for i in e["stmts"] for x in span(i, i)] for e in rec["tables"]}
+    t_alias = {n: e["t"] for e in rec["tables"] for n in e["names"]}
+    # a table renamed first and re-created under its old name (rename-first rebuild): a DS103 for a lost column
+    # anywhere between the first RENAME and the final DROP is as good as the DS102
+    t_rebuilt = {e["t"]: span(e["stmts"][0], e["stmts"][-1]) for e in rec["tables"] if len(e["stmts"]) > 1 and e["t"] in after}
     c_span = {(t, c): span(*cause) for t, c, cause in rec["columns"]}
     c_cause = {(t, c): cause for t, c, cause in rec["columns"]}
     g_span = {}
@@ -171,10 +177,11 @@ def judge_file(f, rec, diags):
         code, pos, names = d.get("Code"), d.get("Pos"), L.diag_names(d.get("Text") or "")
         if code == "DS102":
             t = names[0] if names else None
-            if t in covered_t:
+            if t in t_alias:
+                t = t_alias[t]
                 covered_t[t] += 1
                 if not inside(pos, t_span[t]):
-                    problems.append(("pos|DS102|%s|%s" % (cls, writer), "DS102 for table %r at Pos %r which is not inside the statement that drops it (%r)" % (t, pos, t_span[t])))
+                    problems.append(("pos|DS102|%s|%s" % (cls, writer), "DS102 for table %r at Pos %r which is not inside a statement that (renames and) drops it (%r)" % (t, pos, t_span[t])))
             elif t in relaxed and inside(pos, g_span.get(t, [])):
                 # non-canonical hand-written rebuild: a destructive diagnostic inside the group is what the statement asks for
                 mine = [tc for tc in covered_c if tc[0] == t and inside(pos, c_span[tc])]
@@ -188,6 +195,11 @@ def judge_file(f, rec, diags):
             else:
                 problems.append(("spurious|DS102|%s|%s" % (cls, writer), "DS102 %r at Pos %r: no table of that name that existed before the file is dropped by it (before=%s after=%s)" % (t, pos, t in before, t in after)))
         elif code == "DS103":
+            rb = [t for t in t_rebuilt if inside(pos, t_rebuilt[t]) and names
+                  and all(before[t].get(c, "v") != "v" and c not in after[t] for c in names)]
+            if rb:
+                covered_t[rb[0]] += 1
+                continue
             for c in names:
                 hit = [tc for tc in covered_c if tc[1] == c and inside(pos, c_span[tc])]
                 if hit:
@@ -208,7 +220,8 @@ def judge_file(f, rec, diags):
                 problems.append(("spurious|DS103|unnamed|%s|%s" % (cls, writer), "DS103 without a column name: %r" % d.get("Text")))
         else:
             problems.append(("spurious|%s|%s|%s" % (code, cls, writer), "unexpected destructive diagnostic %r" % d))
-    for t, i in rec["tables"]:
+    for e in rec["tables"]:
+        t, i = e["t"], e["stmts"][-1]
         n = covered_t[t]
         if n == 0:
             if i in slot:
@@ -218,7 +231,8 @@ def judge_file(f, rec, diags):
                 problems.append(("missing|DS102|file-creates-new_<t>-and-drops-<t>",
                                  "table %r existed before %s and is dropped by it, no DS102; the same file creates table %r" % (t, f["name"], "new_" + t)))
             else:
-                problems.append(("missing|DS102|%s|%s" % (cls, writer), "table %r existed before %s and is dropped by it (statement %d), no DS102 diagnostic" % (t, f["name"], i + 1)))
+                problems.append(("missing|DS102|%s|%s" % (cls, writer), "table %r existed before %s and is dropped by it (statements %s%s), no DS102 diagnostic" % (
+                    t, f["name"], [x + 1 for x in e["stmts"]], ", renamed to %s on the way" % e["names"][1:] if len(e["names"]) > 1 else "")))
         elif n > 1:
             problems.append(("duplicate|DS102|%s|%s" % (cls, writer), "%d DS102 diagnostics for table %r" % (n, t)))
     for (t, c), n in covered_c.items():
@@ -238,11 +252,13 @@ def judge_file(f, rec, diags):
             problems.append(("duplicate|DS103|%s|%s" % (cls, writer), "%d diagnostics for column %s.%s" % (n, t, c)))
     readded = sorted(tc for tc in exp_c if tc[0] in after and tc[1] in after[tc[0]])
     recreated = sorted(t for t in exp_t if t in after)
+    renamed = sorted(e["t"] for e in rec["tables"] if len(e["names"]) > 1)
     observed = {"cls": cls, "writer": writer, "exp_tables": len(exp_t), "exp_cols": len(exp_c), "virt": len(virt),
-                "readded": len(readded), "recreated": len(recreated),
+                "readded": len(readded), "recreated": len(recreated), "renamed": len(renamed),
+                "after_rename": sorted({stmts[g[4] + 1].kind for g in groups if g[5] and g[4] + 1 < len(stmts)}),
                 "diags": sorted((d.get("Code"), len(L.diag_names(d.get("Text") or ""))) for d in diags),
                 "groups": sorted((g[5],) for g in groups), "nstmts": min(len(stmts), 11)}
-    return problems, observed, (exp_t, exp_c, virt, groups, stmts, readded, recreated)
+    return problems, observed, (exp_t, exp_c, virt, groups, stmts, readded, recreated, renamed)
 
 
 def wclass(n, total):
@@ -286,7 +302,7 @@ def judge_window(ctx, case, n, rc, rep, out, err, verbose=False):
         diags = [d for r in (fr.get("Reports") or []) for d in (r.get("Diagnostics") or []) if str(d.get("Code", "")).startswith("DS1")]
         other = [d.get("Code") for r in (fr.get("Reports") or []) for d in (r.get("Diagnostics") or []) if not str(d.get("Code", "")).startswith("DS1")]
         any_ds = any_ds or bool(diags)
-        problems, observed, (exp_t, exp_c, virt, groups, stmts, readded, recreated) = judge_file(f, recs[i], diags)
+        problems, observed, (exp_t, exp_c, virt, groups, stmts, readded, recreated, renamed) = judge_file(f, recs[i], diags)
         first_path = (i == 0 and n >= total and len(stmts) > 10)
         observed["first_path"] = first_path
         ctx.eval(vlib.digest(observed), True)
@@ -311,6 +327,18 @@ def judge_window(ctx, case, n, rc, rep, out, err, verbose=False):
             ctx.count("expected|columns-dropped-and-re-added-in-file", len(readded))
         if recreated:
             ctx.count("expected|tables-dropped-and-re-created-in-file", len(recreated))
+        if renamed:
+            ctx.count("expected|tables-renamed-then-dropped-in-file", len(renamed))
+        for g in groups:
+            if g[5]:
+                for off in (1, 2):
+                    if g[4] + off < len(stmts) and stmts[g[4] + off].kind in ("drop_table", "drop_column", "create_table"):
+                        nxt = stmts[g[4] + off]
+                        what = "rebuild" if nxt.kind == "create_table" and any(h[2] == g[4] + off for h in groups) else nxt.kind
+                        if what != "create_table":
+                            ctx.count("slot|canonical-rebuild-RENAME+%d-is-%s|%s" % (off, what, f["writer"]))
+                if g[2] > 0 and stmts[g[2] - 1].kind in ("drop_table", "drop_column", "rename_table"):
+                    ctx.count("slot|before-CREATE-of-canonical-rebuild-is-%s|%s" % (stmts[g[2] - 1].kind, f["writer"]))
         if exp_c and virt and any(t == vt for t, _ in exp_c for vt, _ in virt):
             ctx.count("file-dropping-virtual-and-regular-columns-of-one-table|%s" % f["writer"])
         if not (exp_t or exp_c):
@@ -393,7 +421,7 @@ def main():
         sys.exit(2)
     if ctx.replay:
         sys.exit(replay(ctx))
-    nevo = ctx.pick(60, 400)
+    nevo = ctx.pick(90, 400)
     ctx.par(list(range(nevo)), lambda e: run_evolution(ctx, e))
     table = {}
     for k, v in ctx.counters.items():
